@@ -21,12 +21,12 @@ CONFIG = {
     "C03": dict(algos=["SRC"], families=["star", "mesh", "meshx", "tree", "custom"], n=(200, 3000), perms=True, derived_sweep=True, topo_sweep=True, inject=2, degree_sweep=True),
     "C04": dict(algos=["XY"], families=["mesh"], n=(200, 3000), xy_sweep=True, skip_xy_offset=True),
     "C05": dict(algos=None, families=None, n=(250, 4000), perms=True, topo_sweep=True, overfull_sweep=True, inject=5, degree_sweep=True),
-    "C06": dict(algos=None, families=None, n=(250, 4000), topo_sweep=True, overfull_sweep=True, inject=4, degree_sweep=True),
-    "C07": dict(algos=None, families=None, n=(250, 4000), perms=True, derived_sweep=True, inject=2, degree_sweep=True),
+    "C06": dict(algos=None, families=None, n=(250, 4000), topo_sweep=True, overfull_sweep=True, inject=4, degree_sweep=True, size_sweep=True),
+    "C07": dict(algos=None, families=None, n=(250, 4000), perms=True, derived_sweep=True, inject=2, degree_sweep=True, tableless_sweep=True),
     "C08": dict(algos=None, families=None, n=(250, 4000), inject=2, degree_sweep=True),
     "C09": dict(algos=["ID", "SRC"], families=["mesh", "tree"], n=(150, 1500), mesh_sweep=True),
     "C11": dict(algos=None, families=None, n=(150, 2000), inject=3),
-    "C12": dict(algos=None, families=None, n=(200, 2000), size_sweep=True, derived_sweep=True, inject=3, topo_sweep=True, degree_sweep=True),
+    "C12": dict(algos=None, families=None, n=(200, 2000), size_sweep=True, derived_sweep=True, inject=3, topo_sweep=True, degree_sweep=True, tableless_sweep=True),
     "C13": dict(algos=None, families=None, n=(250, 4000), derived_sweep=True, inject=2, degree_sweep=True),
     "C14": dict(algos=["ID", "SRC"], families=["star", "mesh", "meshx", "tree", "custom"], n=(200, 3000), chain_sweep=True, topo_sweep=True, degree_sweep=True),
 }
@@ -120,6 +120,13 @@ def sweep_cases(pid, tier, rng):
                         if v != 1:
                             cfg["routing"].pop("use_id_table", None)      # the default: table in use
                         out.append((f"derived:{algo}:{k}={v}", cfg))
+    if conf.get("tableless_sweep"):
+        for (m, n, sides) in [(2, 3, ["West", "South"]), (2, 2, ["West"]), (3, 2, ["South", "East"])]:
+            cfg = gen_desc.gen_mesh(rng, "XY", rng.choice(["axi", "narrow-wide"]), m=m, n=n, sides=sides, partial_local=False)
+            if cfg:
+                cfg = json.loads(json.dumps(cfg))
+                cfg["routing"]["use_id_table"] = False
+                out.append((f"tableless-xy:{m}x{n}:{'+'.join(sides)}", cfg))
     if conf.get("degree_sweep"):
         for algo in ["XY", "ID", "SRC"]:
             for degree in [4, 6, 7]:
@@ -150,7 +157,7 @@ def sweep_cases(pid, tier, rng):
             if algo == "XY":
                 continue
             shapes = [("torus", 3, 1), ("torus", 4, 2), ("hub", 6, 0), ("hub", 4, 0), ("bypass", 3, 0), ("handtree", 0, 0),
-                      ("ring-eject", 4, 0), ("hub-bypass", 3, 6), ("chain-xbar", 5, 8)]
+                      ("ring-eject", 4, 0), ("hub-bypass", 3, 6), ("chain-xbar", 5, 8), ("name-prefix", 0, 0)]
             if big:
                 shapes += [("torus", 5, 1), ("torus", 3, 3), ("hub", 7, 0), ("bypass", 2, 0)]
             for kind, a, b in shapes:
@@ -161,6 +168,8 @@ def sweep_cases(pid, tier, rng):
                     cfg = gen_desc.gen_chain_hub(rng, algo, nt, a)
                 elif kind == "handtree":
                     cfg = gen_desc.gen_tree_manual(rng, algo, nt)
+                elif kind == "name-prefix":
+                    cfg = gen_desc.gen_name_prefix_routers(rng, algo, nt)
                 elif kind == "ring-eject":
                     cfg = gen_desc.gen_ring_eject(rng, algo, nt, a)
                 elif kind == "hub-bypass":
@@ -340,7 +349,7 @@ class NetRunner:
         import collections
         drv = lean.Driver()
         # descriptions without address table only where the property does not speak about decoding or routing by it
-        gen_desc.ALLOW_NO_TABLE = pid in ("C05", "C06", "C11", "C12", "C13")
+        gen_desc.ALLOW_NO_TABLE = pid in ("C05", "C06", "C07", "C11", "C12", "C13")
         gen_desc.SHORT_DEGREE = pid in ("C05", "C06")
         gen_desc.EXPRESS_LINKS = pid != "C09"
         stats = collections.Counter()
